@@ -228,6 +228,9 @@ func evalCase(w W) kit.Result {
 				frames, pos, prefix, len(stream)-pos, c, allocated, rt.FrameLimit, err)
 		}
 		if err != nil {
+			if bad := reusePass(w, stream); bad != nil {
+				return *bad
+			}
 			fr := frames
 			if fr > 3 {
 				fr = 3
@@ -240,6 +243,55 @@ func evalCase(w W) kit.Result {
 		frames++
 	}
 	return kit.Bad(w.Codec+":no-progress", "more frames than stream bytes")
+}
+
+// reusePass decodes the same stream the way a connection does: one bin.Buffer for every Read,
+// starting as a buffer that held an earlier message (64 bytes of 0xff), never replaced, and
+// reading on after an error (up to 3 errors; a receive loop may retry) so that whatever an error
+// path leaves in the buffer or the codec meets the next bytes. Oracle: no panic; the bytes
+// allocated during one Read stay within 5/4 of the frame limit + 1 MiB (growing the caller's
+// buffer goes through append, whose 1.25 growth factor is not the codec's choice; the strict bound
+// is applied to the fresh-buffer pass).
+func reusePass(w W, stream []byte) *kit.Result {
+	r := bytes.NewReader(stream)
+	cd := newCodec(w.Codec)
+	if w.Header {
+		if err := cd.ReadHeader(r); err != nil {
+			return nil
+		}
+	}
+	b := &bin.Buffer{Buf: bytes.Repeat([]byte{0xff}, 64)}
+	errs := 0
+	for i := 0; i <= len(stream)+4 && errs < 3; i++ {
+		pos := len(stream) - r.Len()
+		var pv any
+		var err error
+		a0 := heapAllocated()
+		func() {
+			defer func() { pv = recover() }()
+			err = cd.Read(r, b)
+		}()
+		allocated := heapAllocated() - a0
+		prefix := stream[pos:]
+		if len(prefix) > 8 {
+			prefix = prefix[:8]
+		}
+		if pv != nil {
+			bad := kit.Bad(w.Codec+":panic:reused-buffer", "codec.Read into a reused buffer panicked on read %d (after %d errors) starting at stream offset %d (next bytes %x, stream %d bytes): %v", i, errs, pos, prefix, len(stream), pv)
+			return &bad
+		}
+		if allocated > rt.FrameLimit/4*5+allocSlack {
+			bad := kit.Bad(w.Codec+":alloc>limit:reused-buffer", "read %d into a reused buffer at stream offset %d (next bytes %x): %d bytes allocated during this one Read (frame limit %d), err=%v", i, pos, prefix, allocated, rt.FrameLimit, err)
+			return &bad
+		}
+		if err != nil {
+			errs++
+			if r.Len() == 0 {
+				break
+			}
+		}
+	}
+	return nil
 }
 
 // statefulLabel names what happened to the bytes that follow the After valid frames.
@@ -308,7 +360,7 @@ func main() {
 			"(h) stateful: for every k in 0..320 (thorough 0..1200) k valid 8-byte-payload frames (so the full reader expects seqno k) followed by a crafted full frame of every total length 4..15 carrying the bytes of seqno k where they fit and, at the last 4 bytes, the reference CRC32 of the preceding bytes (for lengths 8..11 seqno and CRC overlap: no byte is free, the frame satisfies both checks only for certain k, e.g. n=11 at k=44; the outcome label says when), the same with the CRC off by one bit and with seqno k+1; " +
 			"and for k in {1,2,3,7,44,127,128,255,256,300} (thorough 1..300, 1000, 4096) every codec's own short/odd frames after k valid frames (full: 12 length prefixes with and without matching seqno; intermediate/padded: lengths 0..15 and out-of-range with exact/too-long/absent bodies; abridged: 7 first bytes, extended lengths around 16 MiB); " +
 			"(f) largest valid frames (payload 16 MiB-12 / 16 MiB) and the first refused length; (g) 4 deterministic pseudo-random streams of every length 0..64. " +
-			"Every stream is decoded frame by frame with a fresh buffer until the first error, in a worker process under ulimit -v 2 GiB. " +
+			"Every stream is decoded frame by frame with a fresh buffer until the first error, in a worker process under ulimit -v 2 GiB, and then once more the way a connection reads: one bin.Buffer for all Reads, initially holding 64 bytes of 0xff, reading on after errors (up to 3) - no panic (class <codec>:panic:reused-buffer), bytes allocated per Read <= 5/4 x 16 MiB + 1 MiB (append growth of the caller's buffer is not the codec's choice). " +
 			"Oracle: no panic, each Read returns a frame or an error, cap(buffer) <= 16 MiB + 64 KiB and bytes allocated during the Read (runtime/metrics /gc/heap/allocs:bytes) <= 16 MiB + 1 MiB. distinct = distinct witnesses.")
 		c.Assume("bytes.Reader as the stream (chunking cannot influence a panic/allocation decision that depends on the length prefix only); reference encoder of lib/reftransport for the valid frames; allocation measured as the delta of runtime/metrics /gc/heap/allocs:bytes with no other goroutine running in the worker")
 
